@@ -482,7 +482,7 @@ def state_streams(tier):
 
 PROPS['C12'] = dict(
     family='line', tags={'H': 'state'},
-    theorems=['C12_restore_persist', 'C12_carry', 'C12_detached_leaves_nothing'],
+    theorems=['C12_restore_persist', 'C12_carry', 'C12_detached_leaves_nothing', 'C12_state_file_order'],
     streams=state_streams,
     spec_kinds=['SPEC:C12'], corr_kinds=['DIFF:state-file'],
     case_format='H <step;step: <D = detached><classes of the mutations: v variable x exported u unset a array m associative array i attribute f function l alias o set option s shopt d cd p pushd/popd I inherited variable changed U inherited variable unset B bash default unset r readonly n nasty value>:<hex snippet>>|'
